@@ -60,8 +60,9 @@ func main() {
 	}
 	if *flagOnly == "" || *flagOnly == "e2e" {
 		runE2E(r, cov)
+		runHist(r, cov)
 	}
-	cov["rule"] = "direct: every key of every key set (8/16-bit ints, bool, strings/byte slices up to length 5 over 3 letters: exhaustive; strings/byte slices of lengths 7..4096 around powers of two, 6 contents each; wider ints and floats: fixed lattices (quick 4096, thorough 65536 points) incl. extremes, powers of two ±1, ±0, ±Inf, denormals; 2-column prefixes: cross products) × batch size {1,3,128} × view offset {0,1,5} × every row position × shard counts 1..8, Frame.Hash and defaultPartitioner; a case is non-trivial when the key was observed in ≥2 different placements; e2e: operator × key type × producer shard counts × layout × executor; proc: tables of 3 child processes compared with the parent's"
+	cov["rule"] = "direct: every key of every key set (8/16-bit ints, bool, strings/byte slices up to length 5 over 3 letters: exhaustive; strings/byte slices of lengths 7..4096 around powers of two, 6 contents each; wider ints and floats: fixed lattices (quick 4096, thorough 65536 points) incl. extremes, powers of two ±1, ±0, ±Inf, denormals; 2-column prefixes: cross products) × batch size {1,3,128} × view offset {0,1,5} × every row position × shard counts 1..8, Frame.Hash and defaultPartitioner; a case is non-trivial when the key was observed in ≥2 different placements; e2e: operator (also several operators on one source in one invocation, and histories Run(first(Prefixed(src,a))) then Run(second(Prefixed(result,b)))) × key type × producer shard counts × layout × executor; proc: tables of 3 child processes compared with the parent's"
 	r.Finish(cov)
 }
 
